@@ -5,6 +5,7 @@
    A delivery is the message handed to the outflow together with the published table at that instant. *)
 From Coq Require Import List NArith Bool.
 From AdltV Require Import Lifecycle.Model Lifecycle.ForwardProofs Lifecycle.PublishProofs Exec.Lifecycle.
+From AdltV Require Import Base.Res Base.MachInt Crash.ControlMsgs Lifecycle.SwVersion Lifecycle.SwVersionProofs.
 Import ListNotations.
 Open Scope N_scope.
 
@@ -36,6 +37,42 @@ Example C05_nonvacuous :
   /\ PreOk 1 [].
 Proof. split; [vm_compute; reflexivity|]. split; [constructor|]. split; [intros L []|reflexivity]. Qed.
 
+(* ---- the one place where the stage looks into a payload: the sw-version block of Lifecycle::update (Lifecycle/SwVersion.v).
+   The detector model above abstracts the payload away; that is justified by: the block returns (no panic: the stage does not
+   die at such a message, so "forwards every message" is not lost there) for EVERY sw version the lifecycle has or has not,
+   every message kind and every pair of optional arguments the argument iterator can deliver (none, empty, any bytes, either
+   byte order), and it writes nothing but the sw version. *)
+Theorem C05_sw_version_block_no_panic : forall cur is_ctrl_response a1 a2,
+  exists r, sw_block cur is_ctrl_response a1 a2 = Ok r.
+Proof. exact sw_block_no_panic. Qed.
+
+(* a version once found is kept; the version changes only for a control response whose first argument carries the service id
+   19 and whose second argument has at least 5 bytes (status + length field) *)
+Theorem C05_sw_version_block_effect : forall cur is_ctrl_response a1 a2,
+  (forall v, cur = Some v -> sw_block cur is_ctrl_response a1 a2 = Ok (Some v)) /\
+  (forall r, sw_block cur is_ctrl_response a1 a2 = Ok r -> r <> cur ->
+     cur = None /\ is_ctrl_response = true /\ message_id a1 = SERVICE_ID_GET_SOFTWARE_VERSION /\
+     exists p be, a2 = Some (p, be) /\ 5 <= blen p).
+Proof.
+  intros cur resp a1 a2. split.
+  - intros v ->. apply sw_block_keeps_existing.
+  - intros r. apply sw_block_changes_only_on_swv_response.
+Qed.
+
+(* non-vacuity: the statement separates the block from its reordering "slice off the status byte, then test the length"
+   (which panics when the second argument is missing), and the block does find a well-formed version (LE and BE) *)
+Example C05_sw_version_block_nonvacuous :
+  sw_block_slice_first None true (Some ([19; 0; 0; 0], false)) None = Panic site_index /\
+  sw_block None true (Some ([19; 0; 0; 0], false)) None = Ok None /\
+  sw_block None true (Some ([19; 0; 0; 0], false)) (Some ([], false)) = Ok None /\
+  sw_block None true (Some ([19; 0; 0; 0], false)) (Some ([0; 3; 0; 0; 0; 83; 87; 49], false)) = Ok (Some [83; 87; 49]) /\
+  sw_block None true (Some ([0; 0; 0; 19], true)) (Some ([0; 0; 0; 0; 3; 83; 87; 49], true)) = Ok (Some [83; 87; 49]) /\
+  sw_block None true (Some ([19; 0; 0; 0], false)) (Some ([0; 9; 0; 0; 0; 83; 87; 49], false)) = Ok None.
+Proof. repeat split; vm_compute; reflexivity. Qed.
+
 Print Assumptions C05_forward_once_in_order.
 Print Assumptions C05_assigned_nonzero_own_ecu.
 Print Assumptions C05_nonvacuous.
+Print Assumptions C05_sw_version_block_no_panic.
+Print Assumptions C05_sw_version_block_effect.
+Print Assumptions C05_sw_version_block_nonvacuous.
